@@ -219,7 +219,7 @@ PROPS = {
             'min/max shard around the current count; explorer results present/absent/bad/unknown; failing POSTs and failing early scale request; '
             'malformed stream: min>max, max_proc=0. Membership under ALL schedules of the model (enumerated, budget 6000). non-trivial = the cycle '
             'sent at least one target POST or requested a scale different from the current count; distinct by input',
-    'theorems': 'C05_handover C05_threshold_is_documented C05_no_gap_cycle C05_no_gap_history (+ computed closed-loop example)',
+    'theorems': 'C05_handover C05_handover_completes C05_threshold_is_documented C05_no_gap_cycle C05_no_gap_history (+ computed closed-loop example)',
     'trusted_base': [   'model Model/Coordinator.v hand-written from rebalance.go/coordinator.go/shard.go; tie = differential run of the real '
                         'Coordinator (hook VerifRunOnce) against scripted shards through Shard.APIGet/APIPost, compared under every schedule of the '
                         'model',
